@@ -1,7 +1,7 @@
 ST = "statime_h"
 PROP = dict(
     functions=[
-        "statime_csptp::server::handle_packet::<RecSock, RefCell<InternalState>> (private async fn, via hook wrapper; polled with Waker::noop)",
+        "statime_csptp::server::handle_packet::<RecSock, RefCell<InternalState>> (private async fn, via hook wrapper; polled with Waker::noop) - thorough tier",
         "statime_csptp::messages::CsptpMessage::{deserialize,is_request,is_response,new_response,new_follow_up,serialize}, CsptpRequestTlv/CsptpResponseTlv/CsptpStatusTlv::{try_from,add_to}",
         "statime_wire::Message::{deserialize,serialize}, TlvSetBuilder, TlvSet iteration (reached from handle_packet)",
     ],
@@ -13,9 +13,10 @@ PROP = dict(
     assumptions=["template request: originTimestamp nanoseconds != 10^9", "reception and send timestamps satisfy the Timestamp::new invariant"],
     stub_notes=["no stubs; ServerSocket implemented by the harness (records the datagrams and addresses given to send_event/send_general, returns scripted results)"],
     harnesses=[
+        H(ST, "c45", "c45_messages", "the synchronous steps of handle_packet called in its order through thin hook wrappers (CsptpMessage::deserialize, is_request, new_response, serialize, new_follow_up, serialize) on the template request: same echo checks on the produced bytes", timeout=600),
         H(ST, "c45", "c45_handle", "template request: answered iff sdoId 0x300 / PTP version 2 / valid timestamp; response echoes domain, sequence id, correctionField -> reqCorrectionField, reception time -> reqIngressTimestamp, two-step+unicast flags, leap flags, status TLV iff requested; "
-                                   "follow-up iff send_event succeeded, carrying its timestamp; addresses swapped correctly", timeout=600),
-        H(ST, "c45", "c45_handle_other", "first octet in {nine non-Sync types, an undefined type} under sdoId 0x3xx and Sync under a foreign sdoId, remaining <= 51 bytes unstructured: never answered", timeout=600),
+                                   "follow-up iff send_event succeeded, carrying its timestamp; addresses swapped correctly", tier="thorough", timeout_thorough=1800),
+        H(ST, "c45", "c45_handle_other", "first octet in {nine non-Sync types, an undefined type} under sdoId 0x3xx and Sync under a foreign sdoId, remaining <= 51 bytes unstructured: never answered", tier="thorough", timeout_thorough=1800),
         H(ST, "c45", "c45_handle_any", "first octet 0x30 (CSPTP Sync), remaining <= 51 bytes unstructured (messageLength, TLV chain): anything sent => raw datagram is a PTPv2 Sync with sdoId 0x300 carrying a CSPTP request TLV inside messageLength; same echo checks", tier="thorough", timeout_thorough=1800),
         H(ST, "c45", "c45_handle_any_56", "the same with <= 55 unstructured bytes", tier="thorough", timeout_thorough=1800),
     ],
